@@ -77,6 +77,18 @@ Show(v) ==
 
 \* Three-way comparison of two values of the same type: -1, 0, 1.
 \* (Strings never need ordering in this fragment: only equality.)
+\* the characters that occur in modelled strings, in ASCII order
+Ascii == <<" ", "!", "(", ")", ",", "-", "0", "1", "2", "3", "4", "5", "6", "7", "8", "9", "<", ">", "?",
+           "[", "]", "a", "b", "c", "d", "e", "f", "g", "h", "i", "j", "k", "l", "m", "n", "o", "p", "q",
+           "r", "s", "t", "u", "v", "w", "x", "y", "z">>
+CharCode(c) == CHOOSE i \in 1..Len(Ascii) : Ascii[i] = c
+RECURSIVE LexChars(_, _, _)
+LexChars(a, b, i) ==
+    IF i > Len(a) /\ i > Len(b) THEN 0
+    ELSE IF i > Len(a) THEN -1 ELSE IF i > Len(b) THEN 1
+    ELSE IF a[i] # b[i] THEN (IF CharCode(a[i]) < CharCode(b[i]) THEN -1 ELSE 1)
+    ELSE LexChars(a, b, i + 1)
+
 RECURSIVE CmpV(_, _)
 RECURSIVE CmpElems(_, _, _)
 CmpElems(a, b, j) ==
@@ -90,7 +102,7 @@ CmpTypes(a, b, j) ==
     ELSE CmpTypes(a, b, j + 1)
 CmpV(a, b) ==
     CASE a.t = "i" -> (IF a.i < b.i THEN -1 ELSE IF a.i > b.i THEN 1 ELSE 0)
-      [] a.t = "s" -> (IF a.s = b.s THEN 0 ELSE 2)   \* 2: unequal, order not modelled
+      [] a.t = "s" -> LexChars(a.s, b.s, 1)          \* bytewise
       [] a.t = "q" -> (IF Len(a.q) < Len(b.q) THEN -1
                        ELSE IF Len(a.q) > Len(b.q) THEN 1
                        ELSE LET ty == CmpTypes(a.q, b.q, 1) IN
@@ -132,9 +144,9 @@ CmpHolds(w, c) ==
       [] w \in {"?gt", "!le"} -> c = 1
       [] w \in {"!gt", "?le"} -> c \in {0, -1}
 
-\* Comparison of values of different types: ordered by type, consistently.
-\* The implementation orders the higher type code first.
-CrossCmp(a, b) == IF TypeCode(a) > TypeCode(b) THEN -1 ELSE 1
+\* Comparison of values of different types: ordered by type, consistently with the order
+\* of sequences and stacks (the value whose type code is smaller sorts first).
+CrossCmp(a, b) == IF TypeCode(a) < TypeCode(b) THEN -1 ELSE 1
 
 Word(w, stk) ==
     CASE w = "dup"  -> IF Depth(stk) < 1 THEN HardErr ELSE Yield1(Push(stk, Top(stk)))
@@ -204,8 +216,27 @@ Word(w, stk) ==
                  ELSE IF Top(stk).t = "s"
                  THEN IF (Len(Top(stk).s) = 0) = (w = "?empty") THEN Yield1(stk) ELSE Nothing
                  ELSE SoftErr
+      [] w \in {"?find", "!find", "?starts", "!starts", "?ends", "!ends"} ->
+            \* A (below) is the haystack, B (TOS) the needle
+            IF Depth(stk) < 2 THEN SoftErr
+            ELSE LET a == Sec(stk) b == Top(stk) IN
+                 IF ~((a.t = "s" /\ b.t = "s") \/ (a.t = "q" /\ b.t = "q")) THEN SoftErr
+                 ELSE LET hay == IF a.t = "s" THEN a.s ELSE [j \in 1..Len(a.q) |-> Strip(a.q[j])]
+                          nee == IF b.t = "s" THEN b.s ELSE [j \in 1..Len(b.q) |-> Strip(b.q[j])]
+                          n == Len(nee) m == Len(hay)
+                          at(i) == i + n - 1 <= m /\ SubSeq(hay, i, i + n - 1) = nee
+                          holds == CASE w \in {"?find", "!find"} -> \E i \in 1..(m + 1) : at(i)
+                                     [] w \in {"?starts", "!starts"} -> at(1)
+                                     [] w \in {"?ends", "!ends"} -> n <= m /\ at(m - n + 1)
+                      IN IF holds = (w \in {"?find", "?starts", "?ends"}) THEN Yield1(stk) ELSE Nothing
+      [] w \in {"hex", "dec", "oct", "bin"} ->
+            IF Depth(stk) < 1 THEN HardErr
+            ELSE IF Top(stk).t = "i" THEN Yield1(Push(Pop1(stk), IntD(Top(stk).i, w)))
+            ELSE SoftErr
       [] w \in CmpWords ->
             IF Depth(stk) < 2 THEN HardErr
+            \* the hidden closure type is exempt from the ordering laws: not modelled
+            ELSE IF Sec(stk).t = "c" \/ Top(stk).t = "c" THEN HardErr
             ELSE LET a == Sec(stk) b == Top(stk)
                      c == IF a.t = b.t THEN CmpV(a, b) ELSE CrossCmp(a, b)
                  IN IF CmpHolds(w, c) THEN Yield1(stk) ELSE Nothing
@@ -319,7 +350,8 @@ WordEff(w) ==
       [] w = "swap" -> Eff1(2, 0) [] w = "over" -> Eff1(2, 1) [] w = "rot" -> Eff1(3, 0)
       [] w \in ArithWords -> Eff1(2, -1)
       [] w \in {"length", "elem", "relem", "value", "pos", "type"} -> Eff1(1, 0)
-      [] w \in {"?empty", "!empty"} -> Eff1(1, 0)
+      [] w \in {"?empty", "!empty", "hex", "dec", "oct", "bin"} -> Eff1(1, 0)
+      [] w \in {"?find", "!find", "?starts", "!starts", "?ends", "!ends"} -> Eff1(2, 0)
       [] w \in CmpWords -> Eff1(2, 0)
       [] w = "apply" -> BAD      \* effect depends on the closure: not in this fragment
       [] OTHER -> BAD
